@@ -429,6 +429,10 @@ def _byte_shape(v):
             return ('byte', inner[2] % 256)
         if inner == ('self',):
             return ('bytex', 'self as u8')
+        from .decshape import _const_int
+        k = _const_int(inner)
+        if k is not None:
+            return ('byte', k % 256)
     if v == ('self',):
         return ('bytex', 'self')
     if isinstance(v, tuple) and v[0] == 'matchval':
